@@ -2528,6 +2528,7 @@ class SlicedMemoryIO(object):
             self.flush()
             self.closed = True
 
+    @_if_not_closed
     def __getitem__(self, sl):
         """Get a new file-like view of SDRAM covering the range indicated by
         the slice.
